@@ -7,7 +7,7 @@ from __future__ import annotations
 import ast
 from typing import Any
 
-from .minieval import Evaluator, Host, Raised, Refused, Sym, UserFunc
+from .minieval import Exhausted, Evaluator, Host, Raised, Refused, Sym, UserFunc
 from .model import Repo
 from .util import norm
 from .foldpool import disk_cached
@@ -78,6 +78,35 @@ def fold_make_array(repo: Repo) -> dict | None:
     return out
 
 
+def module_env(repo: Repo, rel: str, env: dict[str, Any] | None = None) -> dict[str, Any]:
+    """``env`` plus the module-level functions of ``rel`` (so that a helper a method was split into is interpreted with it) and the module-level
+    names bound to simple constants.  Names already in ``env`` win."""
+    out: dict[str, Any] = dict(env or {})
+    mod = repo.modules.get(rel)
+    if mod is None:
+        return out
+    consts: dict[str, Any] = {}
+    for st in mod.tree.body:
+        tgt = val = None
+        if isinstance(st, ast.Assign) and len(st.targets) == 1 and isinstance(st.targets[0], ast.Name):
+            tgt, val = st.targets[0].id, st.value
+        elif isinstance(st, ast.AnnAssign) and isinstance(st.target, ast.Name) and st.value is not None:
+            tgt, val = st.target.id, st.value
+        if tgt is None or tgt in out:
+            continue
+        try:
+            v = Evaluator({}, steps=2000).ev(val, dict(consts))
+        except (Refused, Raised, TypeError, ValueError, KeyError, AttributeError, IndexError, ZeroDivisionError):
+            continue
+        if isinstance(v, (int, str, bytes, float, tuple, frozenset, set)) or v is None:
+            consts[tgt] = v
+    out.update({k: v for k, v in consts.items() if k not in out})
+    for q, f in mod.functions.items():
+        if "." not in q and q not in out:
+            out[q] = UserFunc(f.node, out)
+    return out
+
+
 def fold_resolve(repo: Repo) -> dict | None:
     """cstruct.resolve over alias tables: direct, chains, unknown names, cycles, over-long chains; a returned value must never be a string."""
     fi = repo.func("cstruct.py", "cstruct.resolve")
@@ -98,12 +127,15 @@ def fold_resolve(repo: Repo) -> dict | None:
     try:
         for label, (typedefs, name, want) in tables.items():
             cs = Sym("cs", {"typedefs": dict(typedefs)})
-            env = {"isinstance": Host(lambda o, k: k is str and isinstance(o, str)), "str": str}
+            env = module_env(repo, "cstruct.py", {"isinstance": Host(lambda o, k: k is str and isinstance(o, str)), "str": str,
+                                                   "log": Sym("log", {}, {m_: Host(lambda *a, **k: None) for m_ in ("debug", "info", "warning", "error")})})
             try:
-                r = Evaluator(env, steps=20000).call_user(UserFunc(fi.node), [cs, name], {})
+                r = Evaluator(env, steps=20000).call_user(UserFunc(fi.node, env), [cs, name], {})
                 got: Any = r
             except Raised:
                 got = "raise"
+            except Exhausted:
+                got = "does not terminate"
             out["cases"] += 1
             if isinstance(got, str) and got != "raise":
                 out["bad"].append((label, f"returned the string {got!r}", "a type or ResolveError"))
@@ -241,6 +273,7 @@ def fold_leb128(repo: Repo) -> dict | None:
             continue
         if isinstance(v_, (int, str, bytes)):
             base_env[name] = v_
+    base_env = module_env(repo, "types/leb128.py", base_env)  # helpers the slots were split into
     try:
         for signed in (False, True):
             cls = Sym("leb", {"signed": signed}, {"__new__": Host(lambda c, v: v)})
@@ -717,7 +750,7 @@ def fold_base_array(repo: Repo) -> dict | None:
             "x[EOF]": ({"num_entries": expression("EOF", ValueError("unknown name EOF")), "null_terminated": False, "dynamic": True}, ("_read_array", eof)),
             "x[m] with m unknown": ({"num_entries": expression("m", ValueError("unknown name m")), "null_terminated": False, "dynamic": True}, "raise"),
         }
-        env = {"isinstance": Host(isinst), "Expression": expr_cls, "EOF": eof, "int": int}
+        env = module_env(repo, "types/base.py", {"isinstance": Host(isinst), "Expression": expr_cls, "EOF": eof, "int": int})
         for label, (attrs, want) in reads.items():
             calls: list = []
             elem = Sym("elem", {}, {"_read_array": Host(lambda s, n, c=None, calls=calls: calls.append(("_read_array", n)) or ["<elements>"]),
@@ -966,6 +999,47 @@ def fold_generic_write_array(repo: Repo) -> dict | None:
                     what = "the caller's list is changed" if given != entries else ("elements are not written by the element writer on the caller's stream, in order, "
                                                                                     "each at the position the previous one left" if log != want_log else f"returns {got!r}, expected {total}")
                     out["bad"].append((slot, f"{len(entries)} entries at position {start}", what, f"calls {log[:4]}"))
+        return out
+    except Refused:
+        return None
+    except (TypeError, KeyError, IndexError, ValueError, AttributeError):
+        return None
+
+
+def fold_pointer_new(repo: Repo) -> dict | None:
+    """Pointer.__new__ over (pointer width, address): the address is kept as given - also outside the range of the pointer's width and negative (pointer
+    arithmetic is plain integer arithmetic on the address) - together with the stream and the context; nothing is dereferenced yet."""
+    fi = repo.func_opt("types/pointer.py", "Pointer.__new__")
+    if fi is None:
+        return None
+    out: dict = {"cases": 0, "bad": []}
+    try:
+        for size in (1, 2, 4, 8):
+            for value in (0, 5, (1 << (8 * size)) - 1, 1 << (8 * size), (1 << (8 * size)) + 0x24, -1, 1 << 63, (1 << 64) + 7):
+                made: list = []
+
+                def int_new(c, v=0, made=made):
+                    o = Sym("pointer-object", {"__int__": v, "__class__": c})
+                    o.strict = False
+                    made.append(o)
+                    return o
+
+                stream, ctx = Sym("the stream"), {"n": 1}
+                cls = Sym("ptr-type", {"size": size, "type": Sym("target-type")})
+                env = module_env(repo, "types/pointer.py", {"super": Host(lambda *a: Sym("super", {}, {"__new__": Host(int_new)})),
+                                                            "int": Sym("int", {}, {"__new__": Host(int_new)})})
+                try:
+                    obj = Evaluator(env, steps=2000).call_user(UserFunc(fi.node, env), [cls, value, stream, ctx], {})
+                except Raised as e:
+                    out["bad"].append((size, value, f"raised {e}", "an object holding the address"))
+                    continue
+                out["cases"] += 1
+                if not (isinstance(obj, Sym) and made and obj is made[0]):
+                    out["bad"].append((size, value, "does not return the object int.__new__ made", ""))
+                    continue
+                got = (obj.attrs.get("__int__"), obj.attrs.get("_stream") is stream, obj.attrs.get("_context") is ctx, obj.attrs.get("_value", "<unset>"))
+                if got != (value, True, True, None):
+                    out["bad"].append((size, value, f"(address, stream kept, context kept, cached target) = {got}", f"({value}, True, True, None)"))
         return out
     except Refused:
         return None
